@@ -8,8 +8,16 @@ StripPrefix(s, n) == IF IsPrefixOf(n, s) THEN Some(From(s, Len(n))) ELSE None
 StripSuffix(s, n) == IF IsSuffixOf(n, s) THEN Some(UpTo(s, Len(s) - Len(n))) ELSE None
 
 \* maximal number of whole repetitions of n at the start / end of s
-RepsStart(s, n) == SetMax({k \in 0..Len(s) : IsPrefixOf(Repeat(n, k), s)})
-RepsEnd(s, n)   == SetMax({k \in 0..Len(s) : IsSuffixOf(Repeat(n, k), s)})
+\* (declarative form, used on short inputs: RepsStartDecl / RepsEndDecl; the form below is the same number computed
+\* in linear time - the first position at which s stops being n repeated - and MC_StripTrim ASSUMEs they agree)
+RepsStartDecl(s, n) == SetMax({k \in 0..Len(s) : IsPrefixOf(Repeat(n, k), s)})
+RepsEndDecl(s, n)   == SetMax({k \in 0..Len(s) : IsSuffixOf(Repeat(n, k), s)})
+RepsStart(s, n) == LET bad == {q \in 1..Len(s) : s[q] # n[((q - 1) % Len(n)) + 1]}
+                       p   == IF bad = {} THEN Len(s) + 1 ELSE SetMin(bad)
+                   IN (p - 1) \div Len(n)
+RepsEnd(s, n)   == LET bad == {q \in 1..Len(s) : s[Len(s) - q + 1] # n[Len(n) - ((q - 1) % Len(n))]}
+                       p   == IF bad = {} THEN Len(s) + 1 ELSE SetMin(bad)
+                   IN (p - 1) \div Len(n)
 TrimStartM(s, n) == IF n = <<>> THEN s ELSE From(s, Len(n) * RepsStart(s, n))
 TrimEndM(s, n)   == IF n = <<>> THEN s ELSE UpTo(s, Len(s) - Len(n) * RepsEnd(s, n))
 
